@@ -33,3 +33,4 @@ def run(ctx):
            "CHECK expression evaluation recurses without a depth limit", "src/database/database.rs")
     # shared with C10 X4: rollback / UPDATE / DELETE must address index entries under the key INSERT stored them
     dmlrules.index_key_suffix_rule(ctx, "N4.KEY-SUFFIX", dmlrules.KEY_SUFFIX_TOLERATED)
+    dmlrules.modified_set_complete(ctx, "N5.MODIFIED-SET-COMPLETE")
